@@ -6,4 +6,4 @@ Require Import ExtrOcamlBasic.
 From UomV Require Import Model.Tables Model.Conv Model.FloatM Model.FloatOps Model.Exact
   Model.Quantity Model.Storages Model.Duration Model.Text Model.Typing Model.Run.
 Extraction Language OCaml.
-Extraction "model.ml" run32 run64 q_run z_run text_run typing_run.
+Extraction "model.ml" run32 run64 q_run z_run text_run typing_run crun32 crun64.
